@@ -196,3 +196,27 @@ Proof. vm_compute. reflexivity. Qed.
 Example C20_vec_control_is_query_no_path :
   resolve (lit "rtsp://192.168.1.99:554/") (lit "?ctype=video") = Some (lit "rtsp://192.168.1.99:554/?ctype=video").
 Proof. vm_compute. reflexivity. Qed.
+
+(* DESCRIBE with ONVIF back channels: ServerStream.descForDescribe hands a client the stream's medias without the back
+   channels (unless it asked for them), each with the control trackID=<index in the stream's own list>.  For every
+   back-channel layout bc (any length below 2^31) and both kinds of client: the k-th described media (j, ctl) carries the
+   control of its own index j, is a media this client may see, and findMediaByTrackID on that number finds exactly
+   media j of the stream - so by C20_url_play_inverse the SETUP the client issues for it reaches it; and the described
+   indices are exactly the visible ones, in order (nothing left out, nothing twice). *)
+Theorem C20_url_described_media_is_reached : forall bc req k j ctl,
+  nlen bc < 2147483648 -> nnth k (describe bc req) = Some (j, ctl) ->
+  ctl = control_of j /\ j < nlen bc /\
+  (exists b, nnth j bc = Some b /\ (negb b || req) = true) /\
+  find_media_by_track_id (nlen bc) (dec j) = MFound j.
+Proof. exact described_media_is_reached. Qed.
+Print Assumptions C20_url_described_media_is_reached.
+
+Theorem C20_url_described_indices : forall bc req, map fst (describe bc req) = visible_from 0 bc req.
+Proof. intros bc req. exact (describe_indices bc req 0). Qed.
+Print Assumptions C20_url_described_indices.
+
+(* [video, back channel, audio], client without back channels: medias 0 and 2 are described, as trackID=0 and trackID=2 *)
+Example C20_url_example_backchannel :
+  describe [false; true; false] false = [(0, control_of 0); (2, control_of 2)] /\
+  describe [false; true; false] true = [(0, control_of 0); (1, control_of 1); (2, control_of 2)].
+Proof. split; reflexivity. Qed.
